@@ -152,7 +152,7 @@ class Host(HostBase):
             if name in STR_METHODS:
                 return HostMethod(v, name)
             raise self.raise_("AttributeError", f"str object has no attribute {name}", node)
-        if isinstance(v, (PyList, PyDict, PySet, PyTuple, Source, Stream, GenV)):
+        if isinstance(v, (PyList, PyDict, PySet, PyTuple, Source, Stream, GenV, AbsQueue)):
             return HostMethod(v, name)
         if isinstance(v, SliceV):
             if name in ("start", "stop", "step"):
@@ -358,6 +358,9 @@ class Host(HostBase):
                 lo_ok = self.ctx.decide_le0(-f - n) if hi_ok else False
                 if not (hi_ok and lo_ok):
                     raise self.raise_("IndexError", "list index out of range", node)
+                # element identity = the non-negative position
+                if not self.ctx.decide_le0(-f):
+                    f = f + n
                 return self.list_item(v, ("l", f.key()))
             if k == "str":
                 if isinstance(idx, SliceV):
@@ -641,7 +644,9 @@ class Host(HostBase):
             return "concrete", [d.items[k] for k in d.items]
         if isinstance(v, Term) and v.op == "enumerate_concrete":
             return "concrete", list(v.args)
-        if isinstance(v, (Opaque, Term)):
+        if isinstance(v, AbsQueue) and v.items is not None:
+            return "concrete", list(v.items)
+        if isinstance(v, (Opaque, Term, AbsQueue)):
             return "abstract", Source("opaque", v, id=self.ctx.new_id(), depth=self.i.loop_depth)
         if isinstance(v, (Const, IntV, EnumV)):
             raise self.raise_("TypeError", "object is not iterable", node)
@@ -678,6 +683,14 @@ class Host(HostBase):
                 el.val = self.i.new_sym(f"val@{el.id}({container_label(base)})", origin=("elemval", el))
                 self.elem_by_var[idx.lin.vars()[0]] = el
             el.target = el.val
+        elif view == "indices":
+            idx = self.i.new_int(f"idx@{el.id}", 0)
+            n = Lin.var(self.len_var(("sym", base.id), base.label))
+            self.ctx.assume_le0(idx.lin - n + Lin.k(1))
+            el.key = idx
+            el.val = self.i.new_sym(f"val@{el.id}({container_label(base)})", origin=("elemval", el))
+            self.elem_by_var[idx.lin.vars()[0]] = el
+            el.target = idx
         elif view == "enumerate":
             inner: Source = base
             sub = self.make_elem(inner, node)
